@@ -3,4 +3,5 @@ CONSTANTS
   D = 6
   MaxG = 3
 INVARIANT Lemmas
+INVARIANT Lumping
 CHECK_DEADLOCK FALSE
